@@ -9,6 +9,7 @@ import (
 	"bytes"
 	"fmt"
 	"io"
+	"net/http"
 	"os"
 	"path/filepath"
 	"sort"
@@ -237,18 +238,34 @@ func runArchiveScenario(seed uint64, size int, t *Trace) error {
 		}
 		mu.Unlock()
 	}
-	get := func() {
-		if st, _, err := e.Get("/api/v1/archive"); err == nil && st == 200 {
+	get := func() int {
+		st, _, err := e.Get("/api/v1/archive")
+		if err == nil && st == 200 {
 			mu.Lock()
 			okCount++
 			mu.Unlock()
 		}
 		collect()
+		return st
 	}
+	starvedBy := ""
 	for rep := 0; rep < 3; rep++ {
 		time.Sleep(rate + 10*time.Millisecond)
+		// requests the handler refuses for their own sake (method, body) are no downloads: they must not use
+		// up the allowance of the window
+		for k := 0; k < c.ApiArchiveLimit+1; k++ {
+			m := []string{"POST", "PUT", "DELETE", "GET"}[k%4]
+			if req, err := http.NewRequest(m, e.url("/api/v1/archive"), strings.NewReader("x")); err == nil {
+				if resp, err := httpClient.Do(req); err == nil {
+					io.Copy(io.Discard, resp.Body)
+					resp.Body.Close()
+				}
+			}
+		}
 		t0 := time.Now()
-		get() // one early admission
+		if get() == 429 && starvedBy == "" { // one early admission
+			starvedBy = fmt.Sprintf("a download was refused although nothing had been admitted for %v (only refused requests came before it)", rate)
+		}
 		time.Sleep(time.Until(t0.Add(rate * 7 / 10)))
 		for k := 0; k < c.ApiArchiveLimit-1; k++ {
 			get() // fill the window late
@@ -275,6 +292,8 @@ func runArchiveScenario(seed uint64, size int, t *Trace) error {
 	obs := "ok"
 	if worst > c.ApiArchiveLimit {
 		obs = fmt.Sprintf("VIOLATION:%d archives admitted within one window of %v (limit %d)", worst, rate, c.ApiArchiveLimit)
+	} else if starvedBy != "" {
+		obs = "VIOLATION:" + starvedBy
 	}
 	t.Count("archive.rate")
 	t.Line("c14.rate served=%d => %s", okCount, obs)
